@@ -231,18 +231,17 @@ var commonAssumptions = []string{
 var histPlans = map[string]*histPlan{
 	"C01": {level: "exploration", quickRuns: 4000, thorRuns: 300000, chunk: 50, quickBudget: 60 * time.Second, thorBudget: 20 * time.Minute,
 		builds: []string{"default"},
-		required: []string{"oracle/C01", "probe/C01/n=0", "probe/C01/n>=3", "probe/C01/input_with_torsion", "probe/C01/input_Z_ne_1",
-			"probe/C01/Point.MultiScalarMult/recv=used", "probe/C01/Point.MultiScalarMult/recv=zero", "probe/C01/Point.MultiScalarMult/recv=aliased",
+		required: []string{"oracle/C01", "probe/C01/n=0", "probe/C01/n>=3", "probe/C01/input_with_torsion", "probe/C01/Point.MultiScalarMult/recv=used", "probe/C01/Point.MultiScalarMult/recv=zero", "probe/C01/Point.MultiScalarMult/recv=aliased",
 			"probe/C01/Point.VarTimeMultiScalarMult/recv=used", "probe/C01/Point.ScalarMult/recv=aliased", "probe/C01/Point.ScalarBaseMult/recv=used",
 			"probe/C01/Point.VarTimeDoubleScalarBaseMult/recv=aliased"},
 		rule: "one evaluation = one seeded history (8-45 steps over a pool of reused, aliasable Point/Scalar/Element slots, >= 40% scalar-multiplication steps, per-run swarm configuration); non-trivial = at least one scalar-multiplication step whose result was compared with the big.Int reference sum; distinct = distinct value-level event-log hash of the whole run"},
 	"C05": {level: "exploration", quickRuns: 16000, thorRuns: 2000000, chunk: 100, quickBudget: 60 * time.Second, thorBudget: 20 * time.Minute,
 		builds:   []string{"default"},
-		required: []string{"oracle/C05", "probe/C05/Z_ne_1", "probe/C05/accepted_noncanonical_input", "probe/C05/small_order_axis_point", "probe/C05/coordinate_limb_ge_2^51"},
+		required: []string{"oracle/C05", "probe/C05/accepted_noncanonical_input", "probe/C05/small_order_axis_point"},
 		rule:     "one evaluation = one seeded history of point operations, imports with scaled coordinates and decodes (incl. non-canonical encodings); after every step every changed (30% of runs: every) initialised point slot is encoded and compared with the canonical encoding computed from its own raw coordinates, then decoded again; non-trivial = at least one slot encoding checked; distinct = distinct value-level event-log hash"},
 	"C09": {level: "exploration", quickRuns: 40000, thorRuns: 4000000, chunk: 1000, quickBudget: 45 * time.Second, thorBudget: 15 * time.Minute,
 		builds:   []string{"default", "purego"},
-		required: []string{"oracle/C09", "probe/elem_limb_ge_2^51", "probe/elem_value_ge_p_unreduced", "probe/elem_zero_with_nonzero_limbs", "probe/C09/invert_zero"},
+		required: []string{"oracle/C09", "probe/C09/invert_zero"},
 		rule:     "one evaluation = one seeded history over 8-16 field.Element slots (all 20 Element operations; half of the runs biased to carry-free chains that maximise limbs), executed under the default (assembly) and the purego build; each of the nine C09 operations is compared with GF(p) arithmetic on the pre-state values, the 2^52 limb bound is checked on every written element; non-trivial = at least one of the nine operations checked; distinct = distinct value-level event-log hash"},
 	"C11": {level: "fault_enumeration", quickRuns: 800, thorRuns: 250000, chunk: 5, quickBudget: 60 * time.Second, thorBudget: 20 * time.Minute,
 		builds: []string{"default"},
@@ -252,7 +251,7 @@ var histPlans = map[string]*histPlan{
 	"C12": {level: "exploration", quickRuns: 24000, thorRuns: 3000000, chunk: 100, quickBudget: 60 * time.Second, thorBudget: 20 * time.Minute,
 		builds: []string{"default"},
 		required: []string{"oracle/C12", "fault/misuse/uninit", "fault/reject/sem/Point.SetExtendedCoordinates", "fault/reject/sem/Point.SetBytes",
-			"probe/zero_value_receiver", "probe/elem_zero_with_nonzero_limbs", "observed/setter_ok/Point.SetExtendedCoordinates"},
+			"probe/zero_value_receiver", "observed/setter_ok/Point.SetExtendedCoordinates"},
 		rule: "one evaluation = one seeded history with every operation enabled and all fault kinds on (rejected setters, misuse panics, adversarial coordinate imports incl. zero quadruples in several limb forms, zero-value receivers); after every step every changed Point slot must be the guarded zero value (only via var/Set) or satisfy Z != 0, the curve equation and XY = ZT in big.Int; non-trivial = at least one changed point slot validated; distinct = distinct value-level event-log hash"},
 	"C14": {level: "fault_enumeration", quickRuns: 16000, thorRuns: 3000000, chunk: 100, quickBudget: 45 * time.Second, thorBudget: 15 * time.Minute,
 		builds: []string{"default"},
